@@ -343,14 +343,14 @@ def inplace_data(repo, res, cls):
 def labels_fast_path(repo, res, cls):
     """`labels` derived from the cached raw slices: one slot per label VALUE (None for missing values)."""
     f = cls.lookup('labels')
-    want = [('labels_all = ' + nf_text('np.arange(len(self._raw_slices)) + 1'), 'candidate labels 1..len(raw slices)'),
-            ('labels = []', 'labels collected'),]
+    want = [('labels_all = ' + nf_text('np.arange(len(self._raw_slices)) + 1'), 'candidate labels 1..len(raw slices)')]
     from .common import expect_stmt
     for w, meaning in want:
         expect_stmt(res, 'SPEC', f, w, 'labels fast path: ' + meaning)
-    loops = [n for n in ast.walk(f.node) if isinstance(n, ast.For)]
-    ok = len(loops) == 1 and nf(loops[0].iter) == nf_text('zip(labels_all, self._raw_slices, strict=True)') \
-        and any(isinstance(b, ast.If) and nf(b.test) == nf_text('slc is not None') for b in loops[0].body)
+    comps = [n for n in ast.walk(f.node) if isinstance(n, ast.ListComp)]
+    ok = len(comps) == 1 and nf(comps[0]) in (
+        nf_text('[label for label, slc in zip(labels_all, self._raw_slices, strict=True) if slc is not None]'),
+        nf_text('[label for label, slc in zip(np.arange(len(self._raw_slices)) + 1, self._raw_slices, strict=True) if slc is not None]'))
     res.oblige('SPEC', 'labels fast path pairs label values with the RAW slices and skips the None slots', ok, nontrivial=True)
     if not ok:
         res.add(Finding('SPEC', f.fullname, 'labels fast path', f.loc,
